@@ -39,6 +39,13 @@ pub trait ClientMsg: WriteXml + Debug {
         let mut buf = Vec::new();
         let mut writer = Writer::new(&mut buf);
         self.write_xml(&mut writer)?;
+        // A body that contains the end-of-message marker (it can only come from a caller-supplied
+        // fragment written verbatim) would be cut in two by the receiver: refuse to send it.
+        if buf.windows(MARKER.len()).any(|window| window == MARKER) {
+            return Err(WriteError::Other(
+                "message body contains the end-of-message marker ']]>]]>'".into(),
+            ));
+        }
         buf.extend_from_slice(MARKER);
         Ok(String::from_utf8(buf)?)
     }
